@@ -76,7 +76,7 @@ def expected_stream(src, opts):
                 targets += 1
         if (tt in T.Keyword or tt in T.Operator or tt is T.Name.Builtin) \
                 and not v.isalnum():
-            v = oracles._WS_RUN.sub(' ', v)
+            v = oracles.collapse_keyword_ws(v)
         out.append((tt, v))
     return out, targets, d10
 
